@@ -190,6 +190,8 @@ def run_chunk(cfg, slot, chunk, logdir, playback=False):
     cmd = ["cargo", "kani", "--target-dir", target] + KANI_FLAGS
     if playback:
         cmd += PLAYBACK_FLAGS
+    if all(h.fast for h in chunk):
+        cmd += ["--no-assertion-reach-checks", "--no-memory-safety-checks"]
     tmax = 0
     for h in chunk:
         cmd += ["--harness", full_name(h)]
@@ -342,13 +344,13 @@ def make_chunks(hs, jobs, costs):
         return float(costs.get(h.name, h.cost))
     hs = sorted(hs, key=cost, reverse=True)
     heavy = [h for h in hs if cost(h) >= 40]
-    light = [h for h in hs if cost(h) < 40]
     chunks = [[h] for h in heavy]
-    if light:
+    for flag in (True, False):
+        light = [h for h in hs if cost(h) < 40 and h.fast == flag]
+        if not light:
+            continue
         total = sum(cost(h) + 1.0 for h in light)
         target = max(30.0, total / max(1, jobs))
-        cur, acc = [], 0.0
-        # greedy bins
         nb = max(1, min(len(light), int(total / target + 0.999)))
         bins = [[] for _ in range(nb)]
         load = [0.0] * nb
@@ -367,7 +369,7 @@ def run_all(hs, jobs, use_cache, logdir):
     todo = []
     os.makedirs(CACHE, exist_ok=True)
     for h in hs:
-        key = hashlib.sha256(("%s|%s|%s|%s" % (rh, hh, h.name, h.cfg)).encode()).hexdigest()
+        key = hashlib.sha256(("%s|%s|%s|%s|%s" % (rh, hh, h.name, h.cfg, h.fast)).encode()).hexdigest()
         h.cache_key = key
         cp = os.path.join(CACHE, key + ".json")
         if use_cache and os.path.exists(cp):
